@@ -78,6 +78,7 @@ type Disk struct {
 	SmallWB    bool // open databases with a tiny write buffer so that table files and compactions exist
 	KeepLog    bool
 	openDBs    int64
+	OpenedNames map[string]bool // base names of every directory that was successfully opened as a database in this run
 }
 
 func NewDisk(s *Sim, root string) *Disk {
@@ -249,6 +250,12 @@ func (d *Disk) OpenLevelDB(path string, o *opt.Options) (*leveldb.DB, error, boo
 		return nil, err, true
 	}
 	atomic.AddInt64(&d.openDBs, 1)
+	d.mu.Lock()
+	if d.OpenedNames == nil {
+		d.OpenedNames = map[string]bool{}
+	}
+	d.OpenedNames[filepath.Base(path)] = true
+	d.mu.Unlock()
 	return db, nil, true
 }
 
